@@ -37,7 +37,7 @@ def nudge(x, k):
 def gen_cases(chk, tier):
     rng = chk.rng
     cases = []
-    N = 14 if tier == 'quick' else 40
+    N = 14 if tier == 'quick' else 28
     for n in range(0, N + 1):
         lims = [None] + sorted({max(0, n - 3), max(0, n - 1), n, n + 2})
         for lim in lims:
@@ -54,9 +54,9 @@ def gen_cases(chk, tier):
                                     max(1.0, nudge(float(rng.randint(1, n + 2)), rng.randint(-40, 40)))])
                     cases.append((n, kind, lim, c, rng.choice([None, 3])))
     # random far beyond the grid
-    R = 600 if tier == 'quick' else 6000
+    R = 600 if tier == 'quick' else 2500
     for _ in range(R):
-        n = int(10 ** rng.uniform(1, 5.5 if tier == 'quick' else 6.3))
+        n = int(10 ** rng.uniform(1, 5.5 if tier == 'quick' else 6.0))
         kind = rng.choice(['list', 'iter', 'nd'])
         lim = rng.choice([None, None, n, max(0, n - rng.randint(1, 50)), n + rng.randint(1, 50)])
         mode = rng.random()
@@ -171,7 +171,7 @@ def run(chk):
     lines2, impl2, cases2 = [], [], []
     rng = chk.rng
     grid = []
-    N2 = 20 if chk.tier == 'quick' else 60
+    N2 = 20 if chk.tier == 'quick' else 45
     for n in range(0, N2 + 1):
         for cs in [None] + list(range(1, n + 3)):
             for ns in ([None] + list(range(1, n + 3)) if cs is None else [None]):
